@@ -211,6 +211,15 @@ def scenario(sh: Shard, seed, idx, action, t_crash, shape, regime, suspend):
                     out["open_after_settle"] = n_open
                     if n_open > 1:
                         out["problems"].append(("C10:reset:endpoints-accumulate", f"{n_open} endpoints open 30 s after a reset (at most one connection may be up)"))
+                    # at most one connection's worth of tasks: the same task name alive twice means
+                    # a task of the abandoned connection (possibly started after the reset returned,
+                    # by the attempt the reset abandoned) is still running beside the new one
+                    import collections
+
+                    names = collections.Counter(t.get_name() for t in lib_tasks(loop, ("SPA", "FACADE")))
+                    dup = sorted(n_ for n_, c_ in names.items() if c_ > 1)
+                    if dup:
+                        out["problems"].append(("C10:reset:tasks-accumulate", f"30 s after a reset these tasks run more than once (an abandoned connection's tasks beside the new one): {dup}"))
                 else:
                     pass
             finally:
